@@ -87,6 +87,7 @@ func evalC19Inner(op string, args []string, A func(int) []byte) string {
 	case "utf16":
 		return okOrErr(rfc2759.ToUTF16(A(0)))
 	case "chash":
+		priorVariants([][]byte{A(0), A(1), A(2)}, func(a [][]byte) { rfc2759.ChallengeHash(a[0], a[1], a[2]) })
 		return held(rfc2759.ChallengeHash(A(0), A(1), A(2)), nil, func() {
 			rfc2759.ChallengeHash(other(A(0)), A(1), other(A(2)))
 		})
@@ -99,10 +100,12 @@ func evalC19Inner(op string, args []string, A func(int) []byte) string {
 		}
 		return "ok " + hx(rfc2759.NTPasswordHash(u))
 	case "chresp":
+		priorVariants([][]byte{A(0), A(1)}, func(a [][]byte) { rfc2759.ChallengeResponse(a[0], a[1]) })
 		return held(rfc2759.ChallengeResponse(A(0), A(1)), nil, func() {
 			rfc2759.ChallengeResponse(other(A(0)), other(A(1)))
 		})
 	case "descrypt":
+		priorVariants([][]byte{A(0), A(1)}, func(a [][]byte) { rfc2759.DESCrypt(a[0], a[1]) })
 		return "ok " + hx(rfc2759.DESCrypt(A(0), A(1)))
 	case "paritypad":
 		if !c19LinkAvailable {
@@ -130,6 +133,7 @@ func evalC19Inner(op string, args []string, A func(int) []byte) string {
 		}
 		return "ok " + s
 	case "masterkey":
+		priorVariants([][]byte{A(0), A(1)}, func(a [][]byte) { rfc3079.GetMasterKey(a[0], a[1]) })
 		return held(rfc3079.GetMasterKey(A(0), A(1)), nil, func() {
 			rfc3079.GetMasterKey(other(A(0)), other(A(1)))
 		})
@@ -138,6 +142,7 @@ func evalC19Inner(op string, args []string, A func(int) []byte) string {
 		if err != nil {
 			panic(badCase("bad uint in case line: " + args[1]))
 		}
+		priorVariants([][]byte{A(0)}, func(a [][]byte) { rfc3079.GetAsymmetricStartKey(a[0], rfc3079.KeyLength(n), flag01(args[2])) })
 		r, err := rfc3079.GetAsymmetricStartKey(A(0), rfc3079.KeyLength(n), flag01(args[2]))
 		return held(r, err, func() {
 			rfc3079.GetAsymmetricStartKey(A(0), rfc3079.KeyLength(n), !flag01(args[2]))
